@@ -26,7 +26,8 @@ def digests(prop_name, n, workers, seed):
     cfg = dict(prop.TIERS["quick"])
     cfg["tier"] = "quick"
     pool = forkrun.ForkPool(workers, timeout=cfg.get("run_timeout", 60.0) * 2)
-    args = [(prop, rng.derive_int(seed, prop.ID, i), cfg, False) for i in range(n)]
+    args = [(prop, rng.derive_int(seed, prop.ID, i), dict(cfg, index=i, batch_seed=seed), False)
+            for i in range(n)]
     out = {}
     for idx, arg, doc in pool.imap_unordered(driver._gen_and_run, args):
         if doc.get("status") == forkrun.STATUS_OK:
